@@ -1,6 +1,7 @@
 package ringsim
 
 import (
+	"errors"
 	"context"
 	"fmt"
 	"sync"
@@ -27,7 +28,21 @@ type KVWrap struct {
 	openWindows atomic.Int32 // RangeKeys(non-empty)→RemoveKeys/abort windows currently open
 	MaxWindows  atomic.Int32
 	hook        func(op string, key []byte)
+	failExports atomic.Int32 // the next n Export calls fail on the storage level
+	failImports atomic.Int32
 }
+
+// ErrStorage is what an injected storage-level failure returns.
+var ErrStorage = errors.New("ringsim: injected storage failure")
+
+// FailNextExports makes the next n Export calls of this store fail with ErrStorage.
+func (k *KVWrap) FailNextExports(n int) { k.failExports.Store(int32(n)) }
+
+// ExportFailuresLeft is the number of injected export failures that have not fired yet.
+func (k *KVWrap) ExportFailuresLeft() int { return int(max(k.failExports.Load(), 0)) }
+
+// FailNextImports makes the next n Import calls of this store fail with ErrStorage.
+func (k *KVWrap) FailNextImports(n int) { k.failImports.Store(int32(n)) }
 
 var _ chord.KVProvider = (*KVWrap)(nil)
 
@@ -94,6 +109,9 @@ func (k *KVWrap) ListKeys(ctx context.Context, prefix []byte) ([]*protocol.KeyCo
 func (k *KVWrap) Import(ctx context.Context, keys [][]byte, values []*protocol.KVTransfer) error {
 	k.net.logEvent(Event{Kind: "kv", Caller: k.owner, Callee: k.owner, Method: "kv.Import", Arg: fmt.Sprintf("%q", keys)})
 	k.net.delay()
+	if k.failImports.Load() > 0 && k.failImports.Add(-1) >= 0 {
+		return ErrStorage
+	}
 	err := k.inner.Import(ctx, keys, values)
 	if err == nil {
 		k.mu.Lock()
@@ -115,6 +133,9 @@ func (k *KVWrap) Export(ctx context.Context, keys [][]byte) ([]*protocol.KVTrans
 	k.Exports++
 	k.mu.Unlock()
 	k.net.delay()
+	if k.failExports.Load() > 0 && k.failExports.Add(-1) >= 0 {
+		return nil, ErrStorage
+	}
 	return k.inner.Export(ctx, keys)
 }
 
